@@ -115,6 +115,7 @@ type Exec struct {
 	frameOK func(p *Place, heap map[string]*Term) *Term
 	callSeqs map[string]int
 	havocked bool
+	opaque   map[string]bool
 }
 
 type Frame struct {
@@ -130,6 +131,7 @@ type Frame struct {
 	names    map[string][]ssa.Value
 	entryHeap map[string]*Term
 	extraNames map[string]*Val // e.g. result names when evaluating posts
+	backSeq    int
 }
 
 type exitPoint struct {
@@ -166,6 +168,14 @@ func (x *Exec) comp(heap map[string]*Term, name string, s *Sort) *Term {
 }
 
 func (x *Exec) initCompAxioms(name string, t0 *Term) {
+	if t0.S.K == KArray && t0.S.Elem == SSlice && (strings.HasPrefix(name, "H$") || strings.HasPrefix(name, "C$")) {
+		r := Var("r?", SInt)
+		sel := App("select", SSlice, t0, r)
+		x.vc.Assume(Forall([]*Term{r}, And(Le(App("s-arr", SInt, sel), x.top0), Ge(App("s-arr", SInt, sel), IntLit(0)),
+			Ge(App("s-off", SInt, sel), IntLit(0)), Ge(App("s-len", SInt, sel), IntLit(0)), Le(App("s-len", SInt, sel), App("s-cap", SInt, sel)),
+			Le(App("s-cap", SInt, sel), IntLit(1<<62)),
+			Implies(App("=", SBool, App("s-arr", SInt, sel), IntLit(0)), App("=", SBool, App("s-cap", SInt, sel), IntLit(0))))))
+	}
 	// pre-existing references are <= top0 (allocation order), >= 0
 	s := t0.S
 	if s.K == KArray && s.Elem.K == KInt && (strings.HasPrefix(name, "H$") || strings.HasPrefix(name, "C$")) && strings.HasSuffix(name, "#ref") {
@@ -638,7 +648,8 @@ func (fr *Frame) run(reach *Term, heap map[string]*Term) []*exitPoint {
 			n.dead = true
 			continue
 		case nkBackSink:
-			fr.checkInvariants(n, "inv-pres")
+			fr.backSeq++
+			fr.checkInvariants(n, fmt.Sprintf("inv-pres.e%d", fr.backSeq-1))
 			n.dead = true
 			continue
 		}
@@ -788,7 +799,11 @@ func (fr *Frame) checkInvariantsAt(n *vnode, at *vnode, kind string, override ma
 	for i, c := range fr.invariantClauses(li) {
 		env := fr.specEnv(at, at.heap)
 		t := env.evalBool(c.E)
-		fr.x.vc.Oblige(kind, fmt.Sprintf("%s%s.%d.%d", fr.prefix, kind, li.ordinal, i), at.reach, t, fr.x.pos(li.head.Instrs[0].Pos()), c.Text)
+		k := kind
+		if strings.HasPrefix(kind, "inv-pres") {
+			k = "inv-pres"
+		}
+		fr.x.vc.Oblige(k, fmt.Sprintf("%s%s.%d.%d", fr.prefix, kind, li.ordinal, i), at.reach, t, fr.x.pos(li.head.Instrs[0].Pos()), c.Text)
 	}
 }
 
@@ -947,6 +962,14 @@ func (fr *Frame) loopMods(n *vnode) []modTarget {
 		if c.IsInvoke() {
 			everything = true
 			return
+		}
+		if top {
+			if _, isB := c.Value.(*ssa.Builtin); !isB {
+				if fv := fr.lookup(c.Value, n); fv != nil && fv.Fn != nil && depth < 4 {
+					visitFn(fv.Fn.Fn, depth+1, false)
+					return
+				}
+			}
 		}
 		// closure values: try to find MakeClosure
 		if mc, ok := c.Value.(*ssa.MakeClosure); ok {
